@@ -23,6 +23,7 @@ def handle (line : String) : Verdict :=
       else if mode == "pop" then PopReplay.replay j
       else if mode == "run" then RunReplay.replay j
       else if mode == "sel" then DirReplay.replaySel j
+      else if mode == "selopt" then DirReplay.replaySelOpt j
       else if mode == "live" then DirReplay.replayLive j
       else if mode == "mix" then DirReplay.replayMix j
       else if mode == "bench" then DirReplay.replayBench j
